@@ -5,9 +5,11 @@ import (
 	"go/constant"
 	"go/token"
 	"go/types"
+	"math/big"
 	"reflect"
 	"sort"
 	"strings"
+	"time"
 
 	"golang.org/x/tools/go/ssa"
 )
@@ -639,6 +641,19 @@ func ruleShimSessionIDs(c *Ctx, p *Prog, rule string) {
 			return true
 		})
 	}
+	// … and of nothing the client chose: an ID that embeds request data (the path, "for the
+	// logs") need not survive the JSON round trip to the client and back — invalid UTF-8 is
+	// replaced — so the session can be opened but never polled, fed or closed
+	fromRequest := ""
+	for _, s := range sts {
+		SliceBack(Args(CallOf(s))[1], func(v ssa.Value) bool {
+			if prm, isP := v.(*ssa.Parameter); isP && NamedType(prm.Type()) == "net/http.Request" && helperOf(prm.Parent()) == nil {
+				fromRequest = "the request (" + prm.Name() + ") at " + p.Pos(s.Pos())
+			}
+			return true
+		})
+	}
+	c.Check(rule, "open:session-id-is-the-counter-only", p, st.Pos(), fromRequest == "", "the session ID depends on the counter, not on request data", "the session ID is built from "+fromRequest+": client-chosen bytes in the ID (a percent-decoded path that is not valid UTF-8) are altered by json.Marshal in the open answer, the ID the client echoes no longer matches the table key, and the open session can never be polled or closed — its backend websocket stays open")
 	c.Check(rule, "open:session-id-is-unique", p, st.Pos(), fromAdd && !fromLoad, fmt.Sprintf("%d store(s) into the session table: on every path the key derives from an atomic fetch-and-increment of the session counter: no two open calls get the same ID", len(sts)), "the session ID stored in the table "+where+" does not derive on every path from an atomic increment of the session counter (increment on every path: "+fmt.Sprint(fromAdd)+", plain load: "+fmt.Sprint(fromLoad)+"): two open calls can be given (or choose) the same ID, the second connection replaces the first in the table or collides with a generated ID, and each client then polls/sends on the other's websocket")
 	// the ID reported to the client is the stored key
 	as := AllocsOf(in, "agent/websockets.sessionMessage")
@@ -704,6 +719,21 @@ func ruleReverseProxyFields(c *Ctx, p *Prog, rule string) {
 					c.OK(rule, "hostProxy:ReverseProxy."+f, p, st.Pos(), "the proxy's error log is a plain logger over the process's standard streams: it neither blocks nor writes the answer")
 					return
 				}
+			}
+			if f == "ModifyResponse" {
+				// … and the response hook is the shim's own function, not a wrapper that does more to
+				// the response first (a gunzip step that fails on the bodiless reply to a HEAD turns
+				// the backend's answer into a 502)
+				isShim := false
+				for _, r := range Roots(st.Val) {
+					if CallResult(r, 0, ModPath+"/agent/websockets.ShimBody") != nil {
+						isShim = true
+					} else {
+						isShim = false
+						break
+					}
+				}
+				c.Check(rule, "hostProxy:ReverseProxy.ModifyResponse-is-the-shim-hook", p, st.Pos(), isShim, "ModifyResponse is the function websockets.ShimBody returned", "ReverseProxy.ModifyResponse is "+PathOf(st.Val)+", not the function returned by websockets.ShimBody: whatever else that hook does to a response (decode, rewrite, fail) happens to every reply — an error it returns for a reply it cannot handle becomes a 502 without the backend's status and headers")
 			}
 			c.Check(rule, "hostProxy:ReverseProxy."+f, p, st.Pos(), okf, "allowed override: "+allowed[f], "ReverseProxy."+f+" is overridden: requests/responses no longer pass the stock single-host director and transport defaults (e.g. a Director that deletes Accept-Encoding makes the transport transparently gunzip every reply, changing body and entity headers of non-HTML responses; Rewrite mode strips X-Forwarded-*)")
 		})
@@ -2079,4 +2109,119 @@ func ruleStoredEntityLoadable(c *Ctx, p *Prog, rule string, entities ...string) 
 		}
 		c.Check(rule, key, p, pos, bad == "", fmt.Sprintf("all %d properties entities of type %s were ever stored with are still fields the datastore codec loads", len(fp.Fields), ent), ent+": "+bad+": entities written before this change still carry that property, so loading any of them fails with ErrFieldMismatch — a query over the backends of a user then fails as a whole and every request of that user is answered 404")
 	}
+}
+
+// ruleSizesFromOutsideAreSane: size arguments that panic when they are out of range are in
+// range wherever they are computed from values that come from outside (request metadata,
+// header values, parsed numbers): bytes.Buffer.Grow / strings.Builder.Grow need n >= 0
+// (r.ContentLength is -1 for chunked bodies), rand.Int63n/Intn/Int31n need n > 0 (a delay of
+// 0 seconds times a jitter fraction). A panic in a request goroutine nothing recovers ends the
+// agent.
+func ruleSizesFromOutsideAreSane(c *Ctx, p *Prog, rule string, pkgs ...string) {
+	bad := ""
+	n := 0
+	for _, pk := range pkgs {
+		for _, fn := range p.AllFuncsIn(pk) {
+			EachInstrRaw(fn, func(i ssa.Instruction) {
+				cc := CallOf(i)
+				if cc == nil {
+					return
+				}
+				var arg ssa.Value
+				min := int64(0)
+				switch CalleeName(cc) {
+				case "(*bytes.Buffer).Grow", "(*strings.Builder).Grow":
+					arg = PArgs(cc)[1]
+				case "math/rand.Int63n", "math/rand.Intn", "math/rand.Int31n", "math/rand/v2.IntN", "math/rand/v2.Int64N":
+					arg, min = PArgs(cc)[0], 1
+				case "(*math/rand.Rand).Int63n", "(*math/rand.Rand).Intn", "(*math/rand.Rand).Int31n":
+					arg, min = PArgs(cc)[1], 1
+				default:
+					return
+				}
+				n++
+				if k, isC := ConstInt(arg); isC {
+					if k < min {
+						bad = fmt.Sprintf("%s(%d) in %s at %s", CalleeName(cc), k, FuncName(fn), p.Pos(i.Pos()))
+					}
+					return
+				}
+				// only values that come from outside the function can be out of range: a size
+				// estimate summed from len() results and constants cannot be negative
+				external := false
+				SliceBack(arg, func(v ssa.Value) bool {
+					switch y := v.(type) {
+					case *ssa.Parameter, *ssa.FreeVar:
+						if b, isB := y.Type().Underlying().(*types.Basic); isB && b.Info()&types.IsNumeric != 0 {
+							external = true
+						}
+					case *ssa.Call:
+						if b, isBI := y.Call.Value.(*ssa.Builtin); isBI && b.Name() == "len" {
+							return false
+						}
+						switch CalleeName(y.Common()) {
+						case "strconv.Atoi", "strconv.ParseInt", "strconv.ParseUint", "strconv.ParseFloat":
+							external = true
+						}
+					case *ssa.UnOp:
+						if _, _, isF := FieldLoad(y); isF {
+							if b, isB := y.Type().Underlying().(*types.Basic); isB && b.Info()&types.IsNumeric != 0 {
+								external = true
+							}
+						}
+					}
+					return true
+				})
+				if !external {
+					return
+				}
+				it := &interp{p: p, globals: map[string]iv{}}
+				win, err := it.evalValue(arg, 0)
+				if err == nil && win.kind == 'i' {
+					win = it.refineAt(win, arg, i.Block())
+				}
+				if err != nil || win.kind != 'i' || win.ilo.Cmp(big.NewInt(min)) < 0 {
+					bad = fmt.Sprintf("%s(%s) in %s at %s, argument range %s", CalleeName(cc), PathOf(arg), FuncName(fn), p.Pos(i.Pos()), win)
+				}
+			})
+		}
+	}
+	c.Check(rule, "sizes:arguments-that-panic-are-in-range", p, 0, bad == "", fmt.Sprintf("%d Grow / rand.*n call(s): every argument is provably in range", n), bad+": the call panics for a legal input (a chunked request has ContentLength -1; Retry-After: 0 gives a zero jitter width) in a goroutine nothing recovers — one such request terminates the agent")
+}
+
+// ruleNoUnboundedWaitBetweenAttempts: whatever a function waits for between the attempts of a
+// call (time.Sleep, time.After, time.NewTimer) is bounded by a constant: a wait taken from a
+// peer's header (Retry-After as an HTTP-date) keeps the pipe unread — and the handler that
+// writes into it blocked — for as long as the peer says.
+func ruleNoUnboundedWaitBetweenAttempts(c *Ctx, p *Prog, rule string, fnName string, limit time.Duration) {
+	f := c.need(p, rule, fnName)
+	if f == nil {
+		return
+	}
+	bad := ""
+	n := 0
+	EachInstr(f, func(i ssa.Instruction) {
+		cc := CallOf(i)
+		if cc == nil {
+			return
+		}
+		switch CalleeName(cc) {
+		case "time.Sleep", "time.After", "time.NewTimer", "time.Tick", "time.NewTicker":
+		default:
+			return
+		}
+		n++
+		arg := PArgs(cc)[0]
+		if k, isC := ConstInt(arg); isC {
+			if k > int64(limit) {
+				bad = fmt.Sprintf("a constant wait of %s at %s", time.Duration(k), p.Pos(i.Pos()))
+			}
+			return
+		}
+		win, err := (&interp{p: p, globals: map[string]iv{}}).evalValue(arg, 0)
+		if err != nil || win.kind != 'i' || !win.ihi.IsInt64() || win.ihi.Int64() > int64(limit) {
+			bad = fmt.Sprintf("a wait of %s (range %s) at %s", PathOf(arg), win, p.Pos(i.Pos()))
+		}
+	})
+	c.Check(rule, ShortName(f)+":waits-between-attempts-are-bounded", p, f.Pos(), bad == "", fmt.Sprintf("%d wait(s) inside %s, each bounded by %s", n, ShortName(f), limit), FuncName(f)+" contains "+bad+" that no constant bounds: while it waits nobody reads the upload pipe, so the serialiser and the backend-facing handler stay blocked for as long as the proxy's header dictates")
 }
